@@ -1,4 +1,4 @@
-import TensorModel.Dense
+import TensorModel.Dense2
 /-! Line protocol shared with the Go harness: parsing of program steps, printing of observations. -/
 namespace TM
 
